@@ -52,6 +52,7 @@ type FuncContract struct {
 	Requires []Clause
 	Ensures  []Clause
 	AtReturn []Clause // over locals at successful returns
+	Counters []Counter
 	Loops    map[int]*LoopContract
 	Flags    map[string]bool
 	Binds    []Bind
@@ -63,6 +64,14 @@ type FuncContract struct {
 	Cache    []string // receiver fields that are memoisation caches (writes ignored by the readonly analysis)
 	Measure  []Expr   // function-level decreases (lexicographic) for recursion
 	MeasureText string
+}
+
+// Counter is a ghost event counter (see the `count` clause).
+type Counter struct {
+	Name   string
+	Callee string
+	Params []string
+	When   Clause
 }
 
 type CallsiteClause struct {
@@ -125,6 +134,7 @@ func NewContracts() *Contracts {
 
 var (
 	reFuncHdr  = regexp.MustCompile(`^func\s+(?:\(\s*(\*?\w+)\s*\)\s*)?(\w+)(?:\s+results\s*\(([^)]*)\))?\s*$`)
+	reCount    = regexp.MustCompile(`^count\s+(\w+)\s*:\s*([\w\.\(\)\*]+)\s*\(([^)]*)\)\s+when\s+(.*)$`)
 	reSpecAbs  = regexp.MustCompile(`^spec\s+abstract\s+func\s+(\w+)\s*\(([^)]*)\)\s*([\w\[\]\.]+)\s*$`)
 	reSpecHdr  = regexp.MustCompile(`^spec\s+(rec\s+prefix\s+|rec\s+|opaque\s+)?func\s+(\w+)\s*\(([^)]*)\)\s*([\w\[\]\.]+)\s*=\s*(.*)$`)
 	reLemmaHdr = regexp.MustCompile(`^lemma\s+(\w+)\s*\(([^)]*)\)\s*$`)
@@ -135,7 +145,7 @@ var (
 )
 
 var clauseKeywords = map[string]bool{"func": true, "spec": true, "lemma": true, "property": true, "ghost": true, "requires": true,
-	"ensures": true, "loop": true, "invariant": true, "decreases": true, "flags": true, "bind": true, "callsite": true, "let": true, "hint": true, "noread": true, "cache": true, "mustread": true, "global": true, "fresh": true, "split": true, "step": true, "atreturn": true}
+	"ensures": true, "loop": true, "invariant": true, "decreases": true, "flags": true, "bind": true, "callsite": true, "let": true, "hint": true, "noread": true, "cache": true, "mustread": true, "global": true, "fresh": true, "split": true, "step": true, "atreturn": true, "count": true}
 
 func parseParams(s string) ([]Param, error) {
 	s = strings.TrimSpace(s)
@@ -349,6 +359,25 @@ func (cs *Contracts) ParseFile(path, pkgName string) error {
 			default:
 				return fail(l, "%s outside func/lemma", kw)
 			}
+			curLoop = nil
+		case "count":
+			// event counter: count NAME: callee(params) when EXPR  -- NAME counts the calls of callee (in this
+			// function) whose arguments satisfy EXPR; usable in invariants, steps and post-conditions
+			m := reCount.FindStringSubmatch(t)
+			if m == nil || curF == nil {
+				return fail(l, "bad count clause %q", t)
+			}
+			c, err := mkClause(l, m[4])
+			if err != nil {
+				return err
+			}
+			var ps []string
+			for _, p := range strings.Split(m[3], ",") {
+				if p = strings.TrimSpace(p); p != "" {
+					ps = append(ps, p)
+				}
+			}
+			curF.Counters = append(curF.Counters, Counter{Name: m[1], Callee: m[2], Params: ps, When: c})
 			curLoop = nil
 		case "atreturn":
 			// holds over the locals in scope at every successful return (last result literally nil)
